@@ -830,7 +830,7 @@ META = (META[0] + ' SIBNAME; COPYMOD (value-returning operators read the object 
 
 META = (META[0] + ' ACCTYPE (folds over the words do not accumulate in an int deduced from a literal initial value; controls in fixtures/arith_pos.hpp).', META[1])
 
-META = (META[0] + ' WORDSPLIT (every (word, offset) pair basic_bitset hands to a bit primitive is evaluated from the source for all positions and word widths: word pos / W, offset pos % W); CSTRN (the (pointer, n) constructor measures the array only in the `n == npos` arm).', META[1])
+META = (META[0] + ' WORDSPLIT (every (word, offset) pair basic_bitset hands to a bit primitive is evaluated from the source for all positions and word widths: word pos / W, offset pos % W); CSTRN (the (pointer, n) constructor measures the array only in the `n == npos` arm); LITMASK (no mask is built by shifting an int / unsigned literal by a run-time offset; controls in fixtures/arith_pos.hpp).', META[1])
 
 
 def run(chk, tier):
@@ -846,6 +846,7 @@ def run(chk, tier):
     bitprim_rule(chk, db)
     wordsplit_rule(chk, db)
     cstrn_rule(chk, db)
+    litmask_rule(chk, db)
     agg_rule(chk, db)
     retarg_rule(chk, db)
     from ..rules import iters as _ITG
@@ -1081,3 +1082,43 @@ def cstrn_rule(chk, db):
     if n_inst < 1:
         chk.analysis_broken("CSTRN: bitset(CharT const*, n, zero, one) no longer exists")
     return n_inst
+
+
+# ---- LITMASK: single-bit masks are built in the word type --------------------------------------------------------------------
+def litmask_rule(chk, db):
+    """A mask `1 << offset` / `1U << offset` is computed in int / unsigned int whatever the word type is: for 64-bit words an
+    offset of 32 or more is out of range for the shift (x86 wraps it to offset - 32), and `1 << 31` sign-extends when it is
+    widened. In the bitset's own headers every shift whose left operand is an integer literal of type int or unsigned int and
+    whose count is not a literal is a mask of this kind; the word-typed forms are `WordType(1) << offset` and the bit
+    primitives (set_bit / test_bit / flip_bit). Expected count on the library: zero (control in fixtures/arith_pos.hpp)."""
+    n = 0
+    for f in db.funcs:
+        if f.get("body") is None or not f["file"].startswith("_bitset/"):
+            continue
+        for x in litmask_sites(f):
+            n += 1
+            label = "%s :: `%s`" % (astx.sig(f), astx.show(x, 50))
+            chk.instance("LITMASK")
+            chk.obligation("LITMASK", label, False)
+            chk.violation("LITMASK", label, "mask-built-in-int", "%s: `%s` shifts an `%s` literal by a run-time offset: the mask is %d bits wide "
+                          "whatever the word type, so bits at offset >= 32 of a 64-bit word are not addressed (and `1 << 31` sign-extends)"
+                          % (astx.loc(f, x), astx.show(x, 50), x["l"].get("ty") or "int", 32), {"where": astx.loc(f)})
+    # positive / negative control
+    import os
+    fx_path = os.path.join(D.VERIF, "fixtures", "arith_pos.hpp")
+    fx = D.load_source('#include "%s"\n' % fx_path, root=os.path.dirname(fx_path) + "/", tag="fixture-arith")
+    fxf = dict((g["n"], g) for g in fx.funcs)
+    if not ("narrow_mask" in fxf and litmask_sites(fxf["narrow_mask"])):
+        chk.analysis_broken("LITMASK: the positive control fixture::narrow_mask was not reported")
+    if "word_mask" not in fxf or litmask_sites(fxf["word_mask"]):
+        chk.analysis_broken("LITMASK: the negative control fixture::word_mask was reported")
+    return n
+
+
+def litmask_sites(f):
+    out = []
+    for x in astx.all_exprs(f, into_lambdas=True):
+        if x.get("k") == "bin" and x["op"] in ("<<", "<<=") and x["l"].get("k") == "int" and (x["l"].get("ty") or "int") in ("int", "unsigned int") \
+                and astx.strip_casts(x["r"]) is not None and astx.strip_casts(x["r"]).get("k") != "int":
+            out.append(x)
+    return out
